@@ -73,7 +73,7 @@ def visitor_prop_tests(ti: int, oi: int, has_not: bool, c: int) -> bool:
 
 
 # ---------------------------------------------------------------- generator of valid 2.1 patterns with their own syntax tree
-PATHS = ["a:b", "a:b.c", "a:b[1].c", "a:b[*]", "a:'k-1'.c", "file:hashes.'SHA-256'", "a:b_ref.c", "a:b.'c d'", "a:b.'clé'", "a:'ключ'.c", "a:b.'straße_2'.c"]
+PATHS = ["a:b", "a:b.c", "a:b[1].c", "a:b[*]", "a:'k-1'.c", "file:hashes.'SHA-256'", "a:b_ref.c", "a:b.'c d'", "a:b.'clé'", "a:'ключ'.c", "a:b.'straße_2'.c", "a:b.'k-1'[*]", "a:b.'c d'[*].e", "a:'k-1'[*].c", "a:b.'k-1'[2].c"]
 NPATH = len(PATHS)
 CMP_OPS = ["=", "!=", ">", "<", ">=", "<=", "IN", "LIKE", "MATCHES", "ISSUBSET", "ISSUPERSET"]
 CONSTS = {  # constant text per kind; the printed form may normalise it (CANON)
